@@ -372,10 +372,15 @@ class _Gen:
                     it.members.append(Item(kind='raw', text=f'def __init__(self):\n    self.{fam} = 0' + (f'\n    """Instance doc of {name}.{fam}."""' if r.random() < .4 else '')))
                     break
                 elif k < .5:
-                    it.members.append(Item(kind='raw', text=f'def {fam}m(self):' + (f'\n    """Doc of {name}.{fam}m."""' if r.random() < .5 else '') + '\n    return 1'))
+                    sib2 = [m_.name for m_ in it.members if m_.kind in ('func', 'var') and m_.name]
+                    see = f' See L{{{r.choice(sib2)}}}.' if sib2 and self.f.docstyle == 'epytext' and r.random() < .5 else ''
+                    it.members.append(Item(kind='raw', text=f'def {fam}m(self):' + (f'\n    """Doc of {name}.{fam}m.{see}"""' if r.random() < .5 else '') + '\n    return 1'))
         if self.f.fields and r.random() < .3:
             fid = self.new_uid()
-            it.doc = (it.doc or f'Doc of class {name}.') + f'\n\n@ivar iv{fid}: documented only w{fid}.\n@type iv{fid}: C{{int}}'
+            sib = [m_.name for m_ in it.members if m_.kind in ('func', 'var') and m_.name]
+            # the first sentence (shown as summary in tables of other pages too) may link to a member of the same class
+            first = f'Documented only, see L{{{r.choice(sib)}}} w{fid}.' if sib and self.f.docstyle == 'epytext' and r.random() < .6 else f'documented only w{fid}.'
+            it.doc = (it.doc or f'Doc of class {name}.') + f'\n\n@ivar iv{fid}: {first}\n@type iv{fid}: C{{int}}'
             it.notes_fields = [f'iv{fid}']  # type: ignore[attr-defined]
         return it
 
